@@ -91,8 +91,8 @@ Proof.
   intro H. rewrite (eval_expr_eq_tree orc ts t Ep). rewrite (eval_top_extends orc t v H). reflexivity.
 Qed.
 
-Theorem model_meets_spec orc ts :
-  spec_ok {| c_toks := ts; c_orc := orc; c_obs := obs_of (eval_expr orc ts) |} = true.
+Theorem model_meets_spec orc src ts :
+  spec_ok {| c_toks := ts; c_src := src; c_orc := orc; c_obs := obs_of (eval_expr orc ts) |} = true.
 Proof.
   unfold spec_ok, spec_obs. cbn [c_toks c_obs c_orc].
   destruct (reference orc ts) as [v|] eqn:E; [|reflexivity].
